@@ -64,7 +64,7 @@ int vf_attr_setdetachstate(pthread_attr_t *a, int st);
 #ifndef SPURIOUS
 #define SPURIOUS 1
 #endif
-#define NW 3
+#define NW NT
 enum { T_NONE = 0, T_CREATED, T_RUNNING, T_DONE };
 static struct { void *(*fn)(void *); void *arg; int state; _Bool detached, waiting, woken; } thr[NW];
 static int nthr, cur = -1;                 /* cur: -1 = submitting/freeing thread, else worker index */
@@ -89,11 +89,12 @@ void *vf_task(void *a) {
     in_flight--;
     return NULL;
 }
+static int depth;                          /* how many workers are suspended below on the simulated stack */
 static void run_worker(int w) {
     int save = cur;
-    thr[w].state = T_RUNNING; cur = w;
+    thr[w].state = T_RUNNING; cur = w; depth++;
     thr[w].fn(thr[w].arg);
-    thr[w].state = T_DONE; cur = save;
+    thr[w].state = T_DONE; cur = save; depth--;
 }
 /* the submitting thread's next critical section, executed on its behalf at a scheduling point of another thread */
 static _Bool main_step(void) {
@@ -114,13 +115,19 @@ static _Bool main_step(void) {
     cur = save;
     return acted;
 }
-/* scheduling point: the solver picks which pending critical sections of OTHER threads run now */
+/* scheduling point: the solver decides whether a pending critical section of ANOTHER thread runs now (at most
+ * ENV_STEPS of them per point; a not yet started worker may be started here only when NESTED_WORKERS is set) */
+#ifndef ENV_STEPS
+#define ENV_STEPS 1
+#endif
 static _Bool vf_env(void) {
     _Bool acted = 0;
-    for (int k = 0; k < NTASK + 1 + NW; k++) {
+    for (int k = 0; k < ENV_STEPS; k++) {
         if (!nondet_bool()) break;
         _Bool did = 0;
+#ifdef NESTED_WORKERS
         for (int w = 0; w < NW; w++) if (!did && w < nthr && thr[w].state == T_CREATED && nondet_bool()) { run_worker(w); did = 1; }
+#endif
         if (!did && cur != -1) did = main_step();
         if (!did) break;
         acted = 1;
@@ -129,7 +136,9 @@ static _Bool vf_env(void) {
 }
 static _Bool anyone_can_act(void) {
     if (cur != -1 && (main_pc <= NTASK && !shutdown_requested)) return 1;
+#ifdef NESTED_WORKERS
     for (int w = 0; w < NW; w++) if (w < nthr && thr[w].state == T_CREATED) return 1;
+#endif
     return 0;
 }
 
@@ -167,13 +176,17 @@ int vf_cond_wait(pthread_cond_t *c, pthread_mutex_t *m) {
     lock_held = 0; thr[w].waiting = 1; thr[w].woken = 0;
     _Bool spurious = 0;
     if (spurious_left > 0 && nondet_bool()) { spurious_left--; spurious = 1; }
-    for (int k = 0; k < NTASK + 2 + NW; k++) {
+    for (int k = 0; k < NTASK + 2; k++) {
         if (thr[w].woken || spurious) break;
         /* blocked: somebody else has to run */
         _Bool did = 0;
+#ifdef NESTED_WORKERS
         for (int v = 0; v < NW; v++) if (!did && v < nthr && thr[v].state == T_CREATED && nondet_bool()) { run_worker(v); did = 1; }
+#endif
         if (!did) did = main_step();
+#ifdef NESTED_WORKERS
         if (!did) for (int v = 0; v < NW; v++) if (!did && v < nthr && thr[v].state == T_CREATED) { run_worker(v); did = 1; }
+#endif
         if (!did) break;
     }
     if (!thr[w].woken && !spurious) {
@@ -201,7 +214,12 @@ int vf_thread_join(pthread_t th, void **ret) {
     (void)ret;
     int w = (int)th - 1;
     VF_CHECK(w >= 0 && w < nthr && !thr[w].detached, "join of a joinable pool thread");
+#ifdef NESTED_WORKERS
     if (w >= 0 && w < nthr && thr[w].state == T_CREATED) run_worker(w);
+#else
+    /* with a single worker a join issued at a scheduling point of that worker finds it running (suspended below) */
+    if (depth == 0 && w >= 0 && w < nthr && thr[w].state == T_CREATED) run_worker(w);
+#endif
     /* T_RUNNING: the worker is suspended further down the simulated stack and finishes when control returns to it */
     return 0;
 }
